@@ -129,6 +129,20 @@ func genModel(p *simkit.Plan, r *simkit.Rand, tier string) {
 			}
 		}
 	}
+	if p.Scenario == "disk-escape" {
+		// Swap directories and files on planned paths for links to the canary.
+		c["fs_gates"] = int64(simkit.Pick(r, []int{3, 15, 31, 63, 2}))
+		for i := range p.Ops {
+			if (p.Ops[i].Actor == "user" || p.Ops[i].Actor == "init") && p.Ops[i].Kind != "put" && p.Ops[i].Kind != "sleep" && r.Chance(1, 2) {
+				p.Ops[i].Kind = "swaplink"
+			}
+		}
+		for k := r.Range(1, 4); k > 0; k-- {
+			at := r.Intn(len(p.Ops) + 1)
+			op := simkit.Op{Actor: "user", Kind: "swaplink", S: []string{simkit.Pick(r, []string{"alpha", "beta"}), simkit.Pick(r, []string{"a", "b", "c", "a/b", "a/a"})}}
+			p.Ops = append(p.Ops[:at:at], append([]simkit.Op{op}, p.Ops[at:]...)...)
+		}
+	}
 	if p.Scenario == "model-halt" || p.Scenario == "disk-halt" {
 		// Converge first, then one root event, then give it time.
 		c["halt_side"] = int64(r.Intn(2))
